@@ -1,4 +1,5 @@
 import Svgbob.Proofs.LineRun
+import Svgbob.Proofs.SourceConstants
 /-!
 # C09 — straight runs become one line; no two output lines are collinear and touching
 
@@ -58,5 +59,22 @@ example : Forward ⟨-1000, 2000⟩ := by simp [Forward]
 example : G.pass (Frag.merge fun c => c.length)
     (runPieces ⟨3000, 0⟩ ⟨-1000, 2000⟩ [false, false, true]) =
     [.line ⟨3000, 0⟩ ⟨0, 6000⟩ true] := by decide
+
+/-! ### the model's literals are the source's literals (regenerated `Gen/Thresholds.lean`) -/
+
+/-- the collinearity threshold of the model is the one in `util::is_collinear` now -/
+theorem collinear_threshold_is_the_sources (a b c : Pt) :
+    isCollinear a b c =
+      decide ((((b.x - a.x) * (c.y - a.y) - (b.y - a.y) * (c.x - a.x)).natAbs : Int) <
+        Gen.collinearCrossLimit) := collinear_threshold_matches_source a b c
+
+/-- the heading buckets `lineHeading` was derived from are those of `line.rs` now -/
+theorem heading_buckets_are_the_sources :
+    Gen.lineAngleBuckets = [(0, 10, 0), (11, 50, 63435), (51, 80, 63435), (81, 100, 90000),
+      (101, 130, 116565), (131, 170, 116565), (171, 190, 180000), (191, 230, 243435),
+      (231, 260, 243435), (261, 280, 270000), (281, 310, 296565), (311, 350, 296565), (351, 360, 0)] ∧
+    Gen.headingOfAngle = [(0, "Right"), (45, "TopRight"), (63, "TopRight"), (90, "Top"),
+      (117, "TopLeft"), (135, "TopLeft"), (180, "Left"), (225, "BottomLeft"), (243, "BottomLeft"),
+      (270, "Bottom"), (297, "BottomRight"), (315, "BottomRight")] := heading_buckets_match_source
 
 end Svgbob.C09
